@@ -15,6 +15,16 @@ POOL = ["", "NULL", "null", "Null", "TRUE", "true", "False", "END", "end", "End"
         "٣", "1٣", "FALſE", "nuLL", "ﬀ", "Ⅷ", "1e", "e1", "1e+", ".e1", "00", "-0", "+0.0"]
 
 
+# temporal spellings at every length the dialects admit (longest: date, T, time with a six-digit fraction
+# or a long leap-second fraction, zone offset with minutes)
+ZONES17 = ["", "Z", "+01", "-7", "+0530", "-0330", "+05:30", "-03:30"]
+TEMPORAL = [d + t + z
+            for d in ("", "2001-01-01T", "2001-001T", "1998-12-31T")
+            for t in ("10:00", "10:00:59", "23:59:59.5", "23:59:59.123456", "23:59:60", "23:59:60.12345678")
+            for z in ZONES17]
+TEMPORAL += [d + z for d in ("2001-01-01", "2001-001") for z in ZONES17]
+
+
 def _work(args):
     name, text = args
     g, d = io.make_decoder(name)
@@ -123,7 +133,7 @@ def run(ctx):
     rng = ctx.rng
     maxlen = 3 if ctx.thorough() else 2
     texts = ["".join(t) for n in range(0, maxlen + 1) for t in itertools.product(ALPHA, repeat=n)]
-    texts += POOL
+    texts += POOL + TEMPORAL
     for _ in range(8000 if ctx.thorough() else 1500):
         texts.append("".join(rng.choice(ALPHA + POOL) for _ in range(rng.randrange(1, 4))))
     texts = list(dict.fromkeys(texts))
